@@ -521,7 +521,12 @@ class C16(common.Prop):
             else:
                 ln = rng.choice([0, 1, 1, 2, n, rng.randint(0, 2 * n)])
                 mode = rng.random()
-                if mode < 0.15 and n >= 3:
+                if mode < 0.08 and n >= 2:
+                    # evenly spaced runs written with from-the-end indexes: [-3, -2, -1], [-2, -1, 0, 1] (Python's convention, which
+                    # NumPy and PyTorch index lists share)
+                    k = rng.randint(2, min(n, 5))
+                    idx = list(range(-k, 0)) if rng.random() < 0.5 or n < 3 else list(range(-2, min(n - 2, 3)))
+                elif mode < 0.15 and n >= 3:
                     # as long as the body and pinned at both ends, but not the identity: a shuffle / repeats in between
                     mid = list(range(1, n - 1))
                     rng.shuffle(mid)
